@@ -1,5 +1,6 @@
 (* C18 — line-level model of cpmorphology.median_of_labels (after fix F5: bincount with
-   minlength).  Pixel values are integers (the harness sends 2*value for dyadic values so that
+   minlength, and after the repeated-request repair: the result is gathered through the anti-index
+   table).  Pixel values are integers (the harness sends 2*value for dyadic values so that
    the halving of the even case is exact); NaN is [None].  Definitions only. *)
 From Coq Require Import ZArith List Bool Arith.
 From Centro Require Import Base.SortC18 Model.VecC18.
@@ -27,13 +28,17 @@ Definition median_of_labels (image : list Z) (labels indices : list nat) : list 
           let first := 0 :: removelast last in
           (* first + (counts-1)//2; for counts = 0 NumPy gives first-1, never read *)
           let middle_low := map2 (fun f c => f + (c - 1) / 2) first counts in
-          map (fun k =>
-                 let c := getn counts k in
-                 if c =? 0 then None
-                 else let m := getz image2 (getn middle_low k) in
-                      if Nat.even c
-                      then Some ((m + getz image2 (S (getn middle_low k))) / 2)%Z
-                      else Some m)
-              (seq 0 (length indices))
+          let median :=
+            map (fun k =>
+                   let c := getn counts k in
+                   if c =? 0 then None
+                   else let m := getz image2 (getn middle_low k) in
+                        if Nat.even c
+                        then Some ((m + getz image2 (S (getn middle_low k))) / 2)%Z
+                        else Some m)
+                (seq 0 (length indices)) in
+          (* return median[anti_indices[indices]]  (repair F21: a label requested more than once
+             owns only its LAST position in the anti-index table; every occurrence reads that one) *)
+          map (fun l => nth (getn anti_indices l) median None) indices
       end
   end.
